@@ -962,7 +962,7 @@ class System:
                     pinp = self._g[n]._get_pri_inp(pstate, vv)
                     if pinp != -1 and len(p) > 1:
                         vi = v[p[pinp]]
-                        pn = self._get_parent_name(p[pinp])
+                        pn = self._g[p[pinp]]._params["name"]
                     else:
                         vi = v[p[0]]
                     if self._childs[n] == -1:  # leaf
@@ -1215,12 +1215,14 @@ class System:
             if len(rails) > 0:
                 for ph in phase_list:
                     for r in rails:
-                        rail += [r]
-                        phases += [ph]
                         if ph != "":
                             filt = (df["Rail in"] == r) & (df["Phase"] == ph)
                         else:
                             filt = df["Rail in"] == r
+                        if not filt.any():  # rail feeds nothing in this phase
+                            continue
+                        rail += [r]
+                        phases += [ph]
                         vin += [df[filt]["Vin (V)"].tolist()[0]]
                         iin += [sum(df[filt]["Iin (A)"])]
                         p = sum(df[filt]["Power (W)"])
